@@ -53,11 +53,13 @@ def verifyObj (o : Obj) (path : Str) (e : Option Entry) (dev? : Option Nat) (las
   | none =>
     (match o with
      | .notdir => .error (.os .ENOTDIR)
+     | .fault k => .error (.os (.code k))
      | .absent => .ok true
      | _ => .ok false)
   | some (.file _ _ esize cks) =>
     (match o with
      | .notdir => .error (.os .ENOTDIR)
+     | .fault k => .error (.os (.code k))
      | .absent => .ok false
      | .dir d _ _ => if devBad dev? d then .error (.crossDevice path) else .ok false
      | .special d => if devBad dev? d then .error (.crossDevice path) else .ok false
